@@ -144,7 +144,24 @@ def make(prop: str):
             fam_hist[f] = fam_hist.get(f, 0) + 1
             if relevant(prop, scn, obs):
                 seen.add(json.dumps(scn['steps']))
-        corr.evaluations = n_cosim + len(scns)
+        n_reg = 0
+        if prop == 'C12':
+            # (iii) the registry model (Life/Registry.v) against register()/unregister()/reset() of a real object
+            from .. import registry_tie
+            rr = registry_tie.run(ctx, 30 if quick else 300)
+            if rr.get('error'):
+                corr.mismatches.append({'kind': 'registry', 'error': rr['error']})
+            corr.mismatches += rr['mismatches']
+            n_reg = rr.get('cases', 0)
+            corr.extra['registry_cases'] = n_reg
+            corr.extra['registry_hook_calls'] = rr.get('hook_calls', 0)
+            for m in rr['mismatches'][:3]:
+                corr.violations.append(Violation(
+                    'registration:hook-delivery-differs',
+                    f"after the operations {m['ops']} the plugins that received a hook call (or the result of a "
+                    f"(un)registration) differ from 'registered at the call': expected {m['model']}, got {m['impl']}",
+                    {'registry_ops': m['ops'], 'found_in': 'registry-tie'}))
+        corr.evaluations = n_cosim + len(scns) + n_reg
         corr.traces_validated = n_cosim
         corr.distinct_nontrivial = len(seen)
         corr.rule = (f'co-simulation: {n_cosim} generated label sequences (calls from 4 tasks, gate releases, child exits; '
@@ -171,6 +188,20 @@ def make(prop: str):
 
     def replay(ctx, path: Path) -> int:
         j = json.loads(Path(path).read_text())
+        if 'registry_ops' in j:
+            from .. import registry_tie
+            real = registry_tie.run_real(ctx, [j['registry_ops']])
+            ok, out = ctx.coq_eval('RegistryReplay', 'From NL Require Import Life.Registry.\nFrom Coq Require Import List. Import ListNotations.\n'
+                                   'Eval vm_compute in run_enc ' + registry_tie.model_ops(j['registry_ops']) + '.\n')
+            import re
+            m = re.search(r'=\s*(\[.*\])\s*:\s*list', out, re.S)
+            model = json.loads(re.sub(r'\s+', ' ', m.group(1).replace(';', ','))) if m else None
+            print('operations:', j['registry_ops'])
+            print('model :', model)
+            print('real  :', real[0] if real else None)
+            same = real is not None and model == real[0]
+            print('replay verdict:', 'property holds on this history' if same else 'property violated')
+            return 0 if same else 1
         scn = j.get('scenario', j)
         obs = life.run_one(scn)
         for line in life.brief(obs):
